@@ -54,6 +54,7 @@ theorem client_source (s : Node) (e : Event) (c : Nat) (m : ToClient) (r : LockR
   cases e with
   | accept k => simp [step] at h
   | role r => simp [step] at h
+  | unattached d => simp [step] at h
   | close d =>
     simp only [step, stepClose] at h
     repeat' split at h
